@@ -94,6 +94,11 @@ def setup_world(ctx, case):
     if pair == "gen":
         ref_sp = hg.gen_species(rng, "A", 3, 7, rmax=2)
         nres = len(ref_sp["sizes"])
+        collide = case["setup"] % 7 == 3
+        if collide:
+            # the first residue of the reference species is called "1AB" (PDB style, digit first): the near-miss below is
+            # then the species with residue (11, "AB") — another species although "1" + "1AB" == "11" + "AB"
+            ref_sp["atoms"] = [((r, "1AB", a) if r == 1 else (r, n_, a)) for (r, n_, a) in ref_sp["atoms"]]
         # target with the same number of residues (another number for the 'resmismatch' stream)
         while True:
             tgt_sp = hg.gen_species(rng, "B", max(1, nres), 9, rmax=3)
@@ -144,9 +149,14 @@ def setup_world(ctx, case):
         S.args.append(S.ref)
         # near-miss species: renamed molecule / one atom renamed / one atom less
         nm = rng.choice(["molname", "atomname", "shorter"])
+        if collide:
+            nm = "residue-label-collision"
         sp2 = {"name": ref_sp["name"], "atoms": list(ref_sp["atoms"]), "bonds": list(ref_sp["bonds"]),
                "sizes": list(ref_sp["sizes"])}
-        if nm == "molname":
+        if nm == "residue-label-collision":
+            # (seed C04-11: atoms compared through the concatenation resid + resname)
+            sp2["atoms"] = [((11, "AB", a) if r == 1 else (r, n_, a)) for (r, n_, a) in sp2["atoms"]]
+        elif nm == "molname":
             sp2["name"] = ref_sp["name"] + "X"
         elif nm == "atomname":
             k = rng.randrange(len(sp2["atoms"]))
